@@ -29,12 +29,36 @@ def callsn(f, name):
     return [i for i in q.calls(f) if f.nodes[i].get("callee") == name]
 
 
-def lock_state(f, mtext, init):
+_WRAPPERS = {}      # csig -> "lock" / "unlock": members that do nothing to the mutex but take (release) it on every path
+
+
+def lock_wrappers(prog, cls, mtext):
+    """members of `cls` whose whole effect on the mutex is one acquisition (or one release) on every path: calling them on `this` is
+    taking (releasing) the lock (Monitor::lock / Monitor::unlock used by a sibling member instead of the raw pthread call)"""
+    out = {}
+    for g in prog.functions.values():
+        if g.clsq != cls or not g.blocks or not g.file.endswith(".cpp"):
+            continue
+        if not (callsn(g, "pthread_mutex_lock") or callsn(g, "pthread_mutex_unlock")) or callsn(g, "pthread_cond_wait") or callsn(g, "pthread_cond_timedwait"):
+            continue
+        for init, kind, want in ((0, "lock", 1), (1, "unlock", 0)):
+            sin, sat = lock_state(g, mtext, init, use_wrappers=False)
+            if not any(isinstance(v, str) for v in sat.values()) and sin.get(g.exit) == want:
+                out[g.sig] = kind
+    return out
+
+
+def lock_state(f, mtext, init, use_wrappers=True):
     """forward dataflow: number of times the mutex named by argument text is held (0/1/'bad')"""
     def tr(st, e):
         if not isinstance(e, int):
             return st
         n = f.nodes[e]
+        if use_wrappers and n["k"] == "CXXMemberCallExpr" and _WRAPPERS.get(n.get("csig")) and q.call_object(f, e) is not None and \
+           f.nodes[f.strip(q.call_object(f, e))]["k"] == "CXXThisExpr":
+            if _WRAPPERS[n["csig"]] == "lock":
+                return "bad:lock-while-held" if st == 1 else (1 if st == 0 else st)
+            return "bad:unlock-while-free" if st == 0 else (0 if st == 1 else st)
         if n["k"] == "CallExpr" and n.get("callee") in ("pthread_mutex_lock", "pthread_mutex_unlock"):
             if mtext in q.no_casts(f.r(e)) or any(mtext in q.no_casts(q.xr(f, a_)) for a_ in q.call_args(f, e)):     # mutex pointer kept in a local
                 if n["callee"] == "pthread_mutex_lock":
@@ -163,6 +187,9 @@ def run(prog, chk):
         ("Signal::set", 0, 0, 0), ("Signal::reset", 0, 0, 0), ("Signal::wait", 0, 0, 0), ("Signal::wait", 1, 0, 0),
         ("Monitor::set", 0, 0, 0), ("Monitor::wait", 0, 1, 1), ("Monitor::wait", 1, 1, 1),
     ]
+    _WRAPPERS.clear()
+    for cls_ in ("Signal", "Monitor"):
+        _WRAPPERS.update(lock_wrappers(prog, cls_, "this->mdata"))
     for name, npar, h_in, h_out in spec:
         f = fn(prog, name, npar)
         where = "%s:%s" % (f.file, f.line)
